@@ -39,7 +39,9 @@ META = dict(
          'every CFG path to the request, SDK back ends are checked for passing (offset, length) unchanged at every download call, and the local truncation '
          'arithmetic and the front-end span arithmetic are compared in linear normal form; the Range carrier is followed (abstract execution over alias groups) from '
          '_open_from to the request primitive; buffered readers are checked for one consistent representation of their unconsumed bytes. Necessary conditions only.',
-    note='Trusted: CPython ast; engines/pyfacts CFG; engines/linform; HTTP Range semantics (inclusive end); azure download_blob(offset, length); file.seek/read.',
+    note='Trusted: CPython ast; engines/pyfacts CFG; engines/linform; engines/c23facts (buffer accounting, delivery); HTTP Range semantics (inclusive end); azure '
+         'download_blob(offset, length); file.seek/read; may-call resolution by class hierarchy and __init__ attribute types inside hailtop.aiocloud / aiotools / utils / httpx; '
+         'mappings of unknown content merged into headers / params carry no Range / alt entry.',
     technique='static analysis: sibling agreement, string-template normalisation, linear normal forms, CFG path enumeration, representation-invariant '
               'consistency of buffer accounting, abstract execution over alias groups along the may-call chain (def-use of the Range carrier)',
     design_ref='DESIGN.md §3 C23',
@@ -680,7 +682,9 @@ def _deliver(ctx: Ctx, uni: 'c23facts.Universe', rel: str, cls: str, req: Option
 def run(ctx: Ctx) -> None:
     ctx.level = 'other'
     ctx.explanation = ('Every concrete _open_from under hailtop is located (closure scan) and its request construction normalised: Range templates as string parts with the end '
-                       'offset in linear normal form on every CFG path, SDK calls for unchanged (offset, length), local truncation and front-end span arithmetic in linear normal form.')
+                       'offset in linear normal form on every CFG path, SDK calls for unchanged (offset, length), local truncation and front-end span arithmetic in linear normal form. '
+                       'The carrier of the Range (GCS headers dict, S3 keyword) and the GCS alt=media parameter are followed by an abstract execution over alias groups through every '
+                       'function that may be called down to the request primitive. Every buffered reader is checked for one consistent representation of its unconsumed bytes.')
     ctx.rule('R0', 'the concrete _open_from implementations under hailtop are exactly local, router, GCS, S3, Azure, each naming (url, start) in the declared order', 6)
     ctx.rule('R1', 'HTTP Range = bytes={start}- without length and bytes={start}-{start+length-1} with length on every path, and it is sent', 4)
     ctx.rule('R2', 'Azure passes offset/length unchanged at every download_blob; local seeks to start and truncates to length (read capped by limit-offset, offset advances); router delegates unchanged', 9)
